@@ -13,6 +13,8 @@ import (
 	"os"
 	"sort"
 
+	"github.com/sirupsen/logrus"
+
 	"github.com/projectcalico/calico/felix/labelindex"
 	"github.com/projectcalico/calico/felix/labelindex/labelnamevalueindex"
 	"github.com/projectcalico/calico/felix/labelindex/labelrestrictionindex"
@@ -384,6 +386,7 @@ func pick(rnd *rand.Rand, pool []string, n int) []string {
 }
 
 func main() {
+	logrus.SetLevel(logrus.ErrorLevel) // the indexes log every selector update at Info level
 	env := tracelog.GetEnv()
 	lg, err := tracelog.Open(env.OutPath)
 	if err != nil {
